@@ -11,6 +11,16 @@ let register (reg : string -> (Sx.t list -> Sx.t) -> unit) =
           (gw_request_cmd (get_bool repaired) (get_n api) (get_bool hs) (get_str gw) (get_str job) (get_kv gk)
              (get_str expo) (get_n t))
     | _ -> bad "c19_request");
+  reg "c19_seq" (fun a -> match a with
+    | [repaired; calls] ->
+        let get_act = get_pair get_n (get_pair get_str get_str) in
+        let get_call = function
+          | L [api; hs; gw; job; gk; expo; t; acts] ->
+              (get_n api, (get_bool hs, (get_str gw, (get_str job, (get_kv gk, (get_str expo, (get_n t, get_list get_act acts)))))))
+          | _ -> bad "c19_seq call" in
+        put_list (put_res (put_list (put_pair put_str (put_pair put_str (put_pair put_n (put_pair put_kv put_str))))))
+          (gw_seq_cmd (get_bool repaired) (get_list get_call calls))
+    | _ -> bad "c19_seq");
   reg "c19_decode" (fun a -> match a with
     | [plus; base; url] -> put_res put_kv (gw_decode_cmd (get_bool plus) (get_str base) (get_str url))
     | _ -> bad "c19_decode");
